@@ -45,6 +45,18 @@ func sh(dir string, env []string, name string, args ...string) (string, error) {
 	return string(out), err
 }
 
+// envFailure recognises tool output that reports a failure of the machine
+// (disk, memory, a killed child), not of the code under test: such a run is
+// inconclusive, never a violation.
+func envFailure(out string) bool {
+	for _, k := range []string{"no space left on device", "cannot allocate memory", "signal: killed", "input/output error", "too many open files", "resource temporarily unavailable"} {
+		if strings.Contains(out, k) {
+			return true
+		}
+	}
+	return false
+}
+
 var shippedSpecs = []string{"activitystreams.jsonld", "security-v1.jsonld", "toot.jsonld", "forgefed.jsonld"}
 
 // runAstool runs the astool binary in a fresh process into dir/streams.
@@ -487,6 +499,10 @@ func main() {
 			defer mu.Unlock()
 			r.Eval(1)
 			if err != nil {
+				if envFailure(out) {
+					r.Inconclusive("an astool run failed for lack of machine resources: " + firstErrLine(out))
+					return
+				}
 				r.Violate(verdict.Sig{Rule: "C15.astool-failed", Site: "astool", Feature: "shipped vocabularies"}, map[string]interface{}{"run": i}, out)
 				return
 			}
@@ -569,6 +585,11 @@ func main() {
 		r.Sample(map[string]interface{}{"determinism_runs": runs, "generated_files": len(first), "example_file": "impl/activitystreams/type_note/gen_type_activitystreams_note.go", "sha256": first["impl/activitystreams/type_note/gen_type_activitystreams_note.go"]})
 	}
 	// ---- extension vocabularies ----
+	// Every extension tree is a new copy of 700 packages: built in the shared
+	// build cache it would leave several hundred megabytes behind per tree.
+	// The trees get a cache of their own inside the scratch directory, which
+	// disappears with it.
+	extCache := []string{"GOCACHE=" + filepath.Join(scratch, "gocache-ext")}
 	for x := 0; x < nExt; x++ {
 		if *onlyExt >= 0 && x != *onlyExt {
 			continue
@@ -602,11 +623,21 @@ func main() {
 		b, _ := json.MarshalIndent(es.Doc, "", " ")
 		os.WriteFile(extFile, b, 0644)
 		if out, err := runAstool(astool, tree, tree, []string{extFile}); err != nil {
+			if envFailure(out) {
+				r.Inconclusive("astool failed on an extension vocabulary for lack of machine resources: " + firstErrLine(out))
+				os.RemoveAll(tree)
+				continue
+			}
 			r.Violate(verdict.Sig{Rule: "C15.astool-failed", Site: "astool", Feature: "extension vocabulary"}, cas, tail(out, 30))
 			os.RemoveAll(tree)
 			continue
 		}
-		if out, err := sh(tree, nil, "go", "build", "./streams/...", "./pub/..."); err != nil {
+		if out, err := sh(tree, extCache, "go", "build", "./streams/...", "./pub/..."); err != nil {
+			if envFailure(out) {
+				r.Inconclusive("building an extension tree failed for lack of machine resources: " + firstErrLine(out))
+				os.RemoveAll(tree)
+				continue
+			}
 			r.Violate(verdict.Sig{Rule: "C15.extension-does-not-compile", Site: "astool", Feature: firstErrLine(out)}, cas, tail(out, 30))
 			os.RemoveAll(tree)
 			continue
@@ -620,14 +651,19 @@ func main() {
 		gs, _ := os.ReadFile(filepath.Join(root, "go.sum"))
 		os.WriteFile(strings.TrimSuffix(modfile, ".mod")+".sum", gs, 0644)
 		regFile := filepath.Join(scratch, fmt.Sprintf("registry-ext%d.go", x))
-		if out, err := sh(root, nil, "go", "run", "-modfile="+modfile, "./cmd/mkreg", "-repo", tree, "-o", regFile); err != nil {
+		if out, err := sh(root, extCache, "go", "run", "-modfile="+modfile, "./cmd/mkreg", "-repo", tree, "-o", regFile); err != nil {
 			r.Inconclusive("registry generation failed for the extension tree: " + tail(out, 10))
 			os.RemoveAll(tree)
 			continue
 		}
 		overlay := filepath.Join(scratch, fmt.Sprintf("overlay-ext%d.json", x))
 		os.WriteFile(overlay, []byte(fmt.Sprintf(`{"Replace":{%q:%q}}`, filepath.Join(root, "internal/reg/registry_gen.go"), regFile)), 0644)
-		if out, err := sh(root, nil, "go", "build", "-modfile="+modfile, "-overlay="+overlay, "-o", bin, "./cmd/streamsmon"); err != nil {
+		if out, err := sh(root, extCache, "go", "build", "-modfile="+modfile, "-overlay="+overlay, "-o", bin, "./cmd/streamsmon"); err != nil {
+			if envFailure(out) {
+				r.Inconclusive("building the monitor against an extension tree failed for lack of machine resources: " + firstErrLine(out))
+				os.RemoveAll(tree)
+				continue
+			}
 			r.Violate(verdict.Sig{Rule: "C15.extension-does-not-compile", Site: "harness build against the extension tree", Feature: firstErrLine(out)}, cas, tail(out, 30))
 			os.RemoveAll(tree)
 			continue
